@@ -1459,7 +1459,7 @@ struct Engine
             if (post.cap[t] < pre.cap[t])
                 report("C10", "reserve", "capacity-reduced", "reserve(%zu) reduced capacity() from %zu to %zu", n,
                        pre.cap[t], post.cap[t]);
-            if (n > pre.cap[t] && post.cap[t] != n)
+            if (n > pre.cap[t] && post.cap[t] != n && !last_failed)
                 report("C10", "reserve", "capacity!=n", "after reserve(%zu) beyond capacity %zu capacity() == %zu", n,
                        pre.cap[t], post.cap[t]);
             if (post.size[t] != pre.size[t])
